@@ -107,4 +107,16 @@ Section DocVal.
     simpl. clear -F. induction F as [|[a v] pv0 r pvs Hr Fr IH]; simpl; constructor; auto.
     split; auto. exists pv0. auto.
   Qed.
+  (* ---- the other direction: what serialisation emits from consistent stored values is a valid payload ---- *)
+  Definition okv (tag:positive) (q:vq) : Prop :=
+    NoDup (map fst (snd q)) /\ Ltext tag (match fst q with Some pv => wr pv | None => vnil end) /\ Forall (fun ap => Lattr tag (fst ap) (wr (snd ap))) (snd q).
+  Theorem vsound : forall tag q p, okv tag q -> wrv tag q = Some p -> Lv tag p.
+  Proof.
+    intros tag [v st] p (ND & Lt & La) W. unfold wrv in W. simpl in *. destruct (_ && _) eqn:C; [|discriminate]. injection W as <-.
+    apply andb_true_iff in C as [_ R]. unfold Lv. simpl.
+    assert (K: map fst (map wr_attr st) = map fst st) by (rewrite map_map; apply map_ext; intros [a w]; reflexivity).
+    split; [exact Lt|]. split; [rewrite K; exact ND|]. split.
+    - clear -La. induction La as [|[a w] r Ha Hr IH]; simpl; constructor; auto.
+    - intros a Ia. rewrite K. apply memp_In. rewrite forallb_forall in R. apply R. exact Ia.
+  Qed.
 End DocVal.
